@@ -14,6 +14,7 @@ M=[
  ("N10 shm: offset with the wrong sign", RC, "offset := clockTime.Sub(receiveTime)", "offset := receiveTime.Sub(clockTime)"),
  ("N11 shm: ns consistency judged on the clock field only", RC, "t.clockTimeStampNSec/1000 == uint32(t.clockTimeStampUSec) &&\n\t\t\tt.receiveTimeStampNSec/1000 == uint32(t.receiveTimeStampUSec) {", "t.clockTimeStampNSec/1000 == uint32(t.clockTimeStampUSec) {"),
  ("N12 shm: unknown modes accepted", RC, "!(t.mode == 0 || t.mode == 1) || ", ""),
+ ("N14 pi: slews through the kernel PLL (ADJ_OFFSET) instead of writing the frequency", PI, "\t\t\tModes: unix.ADJ_FREQUENCY,\n\t\t\tFreq:  unixutil.ScaledPPMFromFreq(freq),", "\t\t\tModes:  unix.ADJ_OFFSET | unix.ADJ_NANO,\n\t\t\tOffset: offset.Nanoseconds(),"),
  ("N13 shm: reported time is the clock time stamp", RC, "return receiveTime, offset, nil", "return clockTime, offset, nil"),
 ]
 only=sys.argv[1:]
